@@ -820,6 +820,8 @@ pub fn replay(ctx: &mut Ctx, case: &Value) {
 }
 
 pub fn run(ctx: &mut Ctx) {
+    // functions translated from the Rust source (Gen/PureFns): translation vs real code
+    crate::purefns::check(ctx, &["mono", "bits"], if ctx.thorough() { 4000 } else { 300 });
     ctx.report.rule = "one case = one generated bit-packed sequence / u64 column (distribution x codec list) / optional index \
         (per-block density profile) / columnar table (typed columns x cardinalities) / merge (inputs x row order) / tantivy index; \
         distinct = distinct content hash; non-trivial = at least 2 values (codec), a proper non-empty subset of rows (optidx), \
